@@ -704,6 +704,14 @@ func (d *driver) monitorProtocol(cause error, exp expect) {
 			return
 		}
 		last = e.OpenCalls
+		if e.Reopen && i >= p.Max {
+			d.violate("C15:more-than-MaxReopenAttempts", fmt.Sprintf("after %d failed reopen attempts the monitor decided to try again; MaxReopenAttempts is %d", i, p.Max), nil)
+			return
+		}
+		if !e.Reopen && i < p.Max {
+			d.violate("C15:gives-up-before-MaxReopenAttempts", fmt.Sprintf("after %d failed reopen attempts the monitor gave up; MaxReopenAttempts is %d", i, p.Max), nil)
+			return
+		}
 		if int(e.PrevAttempts) != i {
 			d.violate("C15:OnReopenFailed-attempt-count", fmt.Sprintf("OnReopenFailed number %d was given prevAttempts=%d", i, e.PrevAttempts), nil)
 			return
